@@ -38,7 +38,7 @@ theorem decodeNatAux_natRepr (n : Nat) : decodeNatAux 0 (natRepr n) = some n := 
       have h2 : n % 10 < 10 := by omega
       rw [decodeNatAux_append, ih _ h1]
       simp only [Option.bind_some, decodeNatAux, digitVal_digitChar _ h2]
-      simp only [Option.bind_some, Option.some.injEq]
+      simp only [Option.some.injEq]
       omega
 
 theorem natRepr_head (n : Nat) : ∃ d t, d < 10 ∧ natRepr n = digitChar d :: t := by
@@ -72,8 +72,7 @@ theorem decodeInt_intRepr (v : Int) : decodeInt (intRepr v) = some v := by
     · simp [decodeNat_natRepr]
   | negSucc n =>
     simp only [intRepr, decodeInt, decodeNat_natRepr]
-    trace_state
-    simp only [Option.map_some, Option.some.injEq]
+    simp only [Option.bind_eq_bind, Option.bind_some, Option.pure_def, Option.map_some, Option.some.injEq]
     omega
 
 theorem litInt_intRepr (v : Int) : litInt (intRepr v) = some (.int v) := by
